@@ -33,6 +33,7 @@ def check(ctx):
     ctx.run(r10_1, m)
     ctx.run(r10_2, m)
     ctx.run(r10_3, m)
+    ctx.run(c09.r09_3, m)  # the index is keyed by the record's sn: which contig a record belongs to is decided as in C09
     ctx.not_decided.append("BGZF virtual offsets produced by tell() in write mode resolve on read across blocks (pysam's contract)")
     # mechanisms this property rests on (see shared.py): a change there is reported here as well
     from . import shared as _sh
